@@ -71,11 +71,14 @@ def run_cli(args: list[str], cwd: Path, home: Path | None = None, timeout: float
     env = clean_env(home)
     if env_extra:
         env.update(env_extra)
-    try:
-        p = subprocess.run([PY, "-P", "-m", "src.cli_main", *args], cwd=str(cwd), env=env, capture_output=True, timeout=timeout)
-        return p.returncode, p.stdout.decode("utf-8", "replace"), p.stderr.decode("utf-8", "replace")
-    except subprocess.TimeoutExpired as e:
-        return 124, (e.stdout or b"").decode("utf-8", "replace"), "TIMEOUT"
+    # a run that times out on a busy machine gets one patient retry (3x the time) before it counts as a hang (rc 124)
+    for attempt, limit in enumerate((timeout, timeout * 3)):
+        try:
+            p = subprocess.run([PY, "-P", "-m", "src.cli_main", *args], cwd=str(cwd), env=env, capture_output=True, timeout=limit)
+            return p.returncode, p.stdout.decode("utf-8", "replace"), p.stderr.decode("utf-8", "replace")
+        except subprocess.TimeoutExpired as e:
+            last = e
+    return 124, (last.stdout or b"").decode("utf-8", "replace"), "TIMEOUT"
 
 
 def parse_json_violations(stdout: str):
